@@ -103,9 +103,10 @@ def run(rep, tier, seed):
         ]
     T.tracer_check(rep, configs, "C03")
     analytic_pullbacks(rep, tier, seed)
-    T.full_api_adjoint(rep, seed, n=80 if q else 600)
+    T.full_api_adjoint(rep, seed, n=200 if q else 1500)
     T.validate_recorded(rep, "C03", repo_tests=False)
     T.self_test(rep)
+    rep.parts["reverse_mode_not_implemented_raises"] = {"programs": sorted(T.UNSUPPORTED)}
     rep.assumptions += ["analytic functions: f^(k)(x0) from mpmath; full-API programs: J v from algopy's own forward mode (bound to the spec by C01/C02/C07/C08)"]
     return rep.finish("one case = (program, curve, seed) replayed through CGraph with exact expected adjoints; plus (function, base point, "
                       "coefficient pattern, seed pattern) for analytic pullbacks; plus random full-API programs with the dot-product identity; "
